@@ -1,21 +1,30 @@
 #!/usr/bin/env python3
-"""Imports the deliverables of one sub-agent round (/tmp/r3/<Cnn>/out/{seed,refactor}) into
-/verif/seeded/<Cnn>-<v> and /verif/refactorings/<Cnn>-<v>. usage: import_round.py <dir> <seedvariant> <refvariant> [ids...]"""
+"""Imports the deliverables of one sub-agent round (<dir>/<Cnn>/out/...) into /verif/seeded/<Cnn>-<v> and
+/verif/refactorings/<Cnn>-<v>.
+
+usage: import_round.py <dir> <seeds> <refvariant> [ids...]
+  <seeds> is either a variant name (the seed is in out/seed) or a comma list outdir=variant,outdir=variant
+  e.g.   import_round.py /tmp/r3 3a c            import_round.py /tmp/r4 seedA=4a,seedB=4b d C01 C02
+"""
 import json, os, shutil, sys
+
 src, sv, rv = sys.argv[1], sys.argv[2], sys.argv[3]
 ids = sys.argv[4:] or sorted(os.listdir(src))
+seeds = [x.split('=') for x in sv.split(',')] if '=' in sv else [['seed', sv]]
 for pid in ids:
-    s = f'{src}/{pid}/out/seed'
-    if all(os.path.exists(f'{s}/{f}') for f in ('patch.diff', 'demo_test.go', 'meta.json')):
-        d = f'/verif/seeded/{pid}-{sv}'
-        os.makedirs(d, exist_ok=True)
-        for f in ('patch.diff', 'demo_test.go', 'meta.json'):
-            shutil.copy(f'{s}/{f}', f'{d}/{f}')
-        m = json.load(open(f'{d}/meta.json')); m['variant'] = sv
-        json.dump(m, open(f'{d}/meta.json', 'w'), indent=1)
-        print('seed', d)
-    else:
-        print('seed MISSING', pid)
+    for sdir, svar in seeds:
+        s = f'{src}/{pid}/out/{sdir}'
+        if all(os.path.exists(f'{s}/{f}') for f in ('patch.diff', 'demo_test.go', 'meta.json')):
+            d = f'/verif/seeded/{pid}-{svar}'
+            os.makedirs(d, exist_ok=True)
+            for f in ('patch.diff', 'demo_test.go', 'meta.json'):
+                shutil.copy(f'{s}/{f}', f'{d}/{f}')
+            m = json.load(open(f'{d}/meta.json'))
+            m['variant'] = svar
+            json.dump(m, open(f'{d}/meta.json', 'w'), indent=1)
+            print('seed', d)
+        else:
+            print('seed MISSING', pid, sdir)
     r = f'{src}/{pid}/out/refactor'
     if all(os.path.exists(f'{r}/{f}') for f in ('patch.diff', 'meta.json')):
         d = f'/verif/refactorings/{pid}-{rv}'
